@@ -31,6 +31,9 @@ RULE = ('Static: every ordered pair of the known protocol numbers through '
         'numeric order and rank disagree or exactly one has the PRE bit; '
         'history steps after a non-tail insertion followed by a '
         'reinit(known). Distinct by pair / by (history fingerprint).')
+RULE += (' ' +
+         'Round 15: records that repeat an existing id with another protocol '
+         'number. ')
 LEVEL_TEXT = ('Exhaustive enumeration of all pairs and (via the truth '
               'matrix) all triples of known protocol numbers against an '
               'independent rank projection, plus model-based stateful '
